@@ -84,7 +84,7 @@ impl Prop for C11 {
     }
     fn runs(&self, tier: Tier) -> u64 {
         match tier {
-            Tier::Quick => 640,
+            Tier::Quick => 1280,
             Tier::Thorough => 12000,
         }
     }
